@@ -41,3 +41,56 @@ def field_key_rule(ctx, rule, classes, why):
                 ctx.check(rule, f'{site(f, s)} {attr}', ok, f'{f.qual}|field-key|{attr}|{key}',
                           f"self.{attr} is filled from the configuration entry '{key}': {why}", ast.unparse(s)[:120])
     return n
+
+
+def export_pairs(to_json):
+    """(key, value expression, node) written under 'params' by a to_json method: subscript stores and dict literal entries"""
+    out = []
+    for n in ast.walk(to_json.node):
+        if isinstance(n, ast.Assign) and isinstance(n.targets[0], ast.Subscript):
+            t = n.targets[0]
+            if isinstance(t.value, ast.Subscript) and isinstance(t.value.slice, ast.Constant) and t.value.slice.value == 'params' and \
+                    isinstance(t.slice, ast.Constant) and isinstance(t.slice.value, str):
+                out.append((t.slice.value, n.value, n))
+        elif isinstance(n, ast.Dict):
+            for k, v in zip(n.keys, n.values):
+                if isinstance(k, ast.Constant) and k.value == 'params' and isinstance(v, ast.Dict):
+                    for k2, v2 in zip(v.keys, v.values):
+                        if isinstance(k2, ast.Constant) and isinstance(k2.value, str):
+                            out.append((k2.value, v2, v2))
+    return out
+
+
+def export_key_rule(ctx, rule, pairs, why):
+    """what an element exports under key K is the attribute its loader fills from key K: follow self.A -> (self.A = self.params.B
+    in __init__) -> (params class: self.B = kwargs[K'])  and require K' == K"""
+    from .rules.common import site
+    n = 0
+    for el, pcs in pairs:
+        tj = el.getters.get('to_json') or el.methods.get('to_json')
+        init = el.methods.get('__init__')
+        if tj is None or init is None:
+            continue
+        alias = {}
+        for s in ast.walk(init.node):
+            if isinstance(s, ast.Assign) and isinstance(s.targets[0], ast.Attribute) and isinstance(s.targets[0].value, ast.Name) and \
+                    s.targets[0].value.id == 'self' and isinstance(s.value, ast.Attribute) and ast.unparse(s.value.value) == 'self.params':
+                alias[s.targets[0].attr] = s.value.attr
+        loader = {}
+        for pc in pcs:
+            for f in pc.all_funcs():
+                for _, attr, key in sites(f):
+                    loader.setdefault(attr.lstrip('_'), set()).add(key)
+        for key, val, node in export_pairs(tj):
+            a = None
+            if isinstance(val, ast.Attribute) and isinstance(val.value, ast.Name) and val.value.id == 'self':
+                a = alias.get(val.attr, val.attr)
+            elif isinstance(val, ast.Attribute) and ast.unparse(val.value) == 'self.params':
+                a = val.attr
+            if a is None or a.lstrip('_') not in loader:
+                continue
+            n += 1
+            ks = loader[a.lstrip('_')]
+            ctx.check(rule, f'{site(tj, node)} {key}', key in ks, f'{tj.qual}|export-key|{key}|{a}',
+                      f"the value loaded from {sorted(ks)} (attribute {a}) is exported under '{key}': {why}", ast.unparse(val)[:80])
+    return n
